@@ -130,11 +130,23 @@ def handler_case(LKm, cfg):
         calls.append("same object" if error is E else ("its class" if error is type(E) else repr(error)))
         context.write("[handled]")
         return cfg["error_handler"] == "accept"
-    lk = LKm.TemplateLookup(error_handler=h if cfg["error_handler"] else None, format_exceptions=cfg["format_exceptions"])
+    def ih(context, error):
+        calls.append("include handler: " + ("same object" if error is E else repr(error)))
+        context.write("[ihandled]")
+        return cfg.get("include_error_handler") == "accept"
+    lk = LKm.TemplateLookup(error_handler=h if cfg["error_handler"] else None, format_exceptions=cfg["format_exceptions"],
+                            include_error_handler=ih if cfg.get("include_error_handler") else None)
     lk.put_string("inc", "inc ${boom()} cni")
     lk.put_string("base", "B(${next.body()})")
     lk.put_string("main", H_SITES[cfg["site"]])
-    t = lk.get_template("main")
+    if cfg.get("main_from") == "Template(lookup=)":
+        # the page is built by hand and only handed the lookup: it carries none of the lookup's handlers itself, the templates
+        # it includes (fetched through the lookup) do
+        import sys as _sys
+        TPm = _sys.modules[LKm.__name__.rsplit(".", 1)[0] + ".template"]
+        t = TPm.Template(H_SITES[cfg["site"]], lookup=lk)
+    else:
+        t = lk.get_template("main")
     try:
         out = t.render_unicode(boom=boom)
         res = ("returned", out if len(out) < 80 else ("error page naming %s" % type(E).__name__ if type(E).__name__ in out else "some long text"))
@@ -149,6 +161,16 @@ def handler_case(LKm, cfg):
 
 
 def handler_expected(cfg):
+    pre = ""
+    if cfg["site"] == "include" and cfg.get("include_error_handler") and cfg["exception"] == "Exception":
+        # the included template's include_error_handler sees an Exception first: accepted -> the includer goes on after the tag
+        if cfg["include_error_handler"] == "accept":
+            return ("returned", "before inc [ihandled] after")
+        pre = "[ihandled]"
+    if cfg.get("main_from") == "Template(lookup=)":
+        cfg = dict(cfg, error_handler=None, format_exceptions=False)
+    if pre and cfg["error_handler"] == "accept":
+        return ("returned", "before inc [ihandled][handled]")
     if cfg["error_handler"] == "accept":
         return ("returned", {"body": "before [handled]", "include": "before inc [handled]", "buffered-def": "before [handled]", "inherited": "B(before [handled]"}[cfg["site"]])
     if cfg["error_handler"] == "decline" or not cfg["format_exceptions"]:
@@ -159,6 +181,9 @@ def handler_expected(cfg):
 def h_handlers(p):
     cfg = dict(site=list(H_SITES)[p.choose(len(H_SITES), "site")], error_handler=[None, "accept", "decline"][p.choose(3, "error_handler")],
                format_exceptions=bool(p.choose(2, "format_exceptions")), exception=list(KINDS)[p.choose(len(KINDS), "exception_kind")])
+    if cfg["site"] == "include":
+        cfg["include_error_handler"] = [None, "accept", "decline"][p.choose(3, "include_error_handler")]
+        cfg["main_from"] = ["lookup.get_template", "Template(lookup=)"][p.choose(2, "page_built_by")]
     res, calls, again = handler_case(LK, cfg)
     return dict(cfg=cfg, res=res, calls=calls, again=again)
 
@@ -295,9 +320,9 @@ def run(check, tier):
         "exhausts them")
     check.assume("disposition of the exception: an Exception, a BaseException that is not an Exception (carrying state) and SystemExit raised in the "
                  "body / an included / a buffered / an inheriting template, with error_handler absent / accepting / declining and "
-                 "format_exceptions on/off: handled -> output so far plus the handler's; declined or no handler -> the SAME object "
+                 "format_exceptions on/off (for the include site also include_error_handler absent / accepting / declining, and the page fetched from the lookup or built by hand with lookup=): handled -> output so far plus the handler's; declined or no handler -> the SAME object "
                  "reaches the caller; format_exceptions -> an error page naming the class; then the Template renders again correctly")
-    check.not_claimed("error page contents of format_exceptions", "include_error_handler",
+    check.not_claimed("error page contents of format_exceptions",
                       "templates beyond the per-construct composition argument")
     jobs = []
     sites = list(RS.SITES) + (list(RS.NESTED) if tier == "thorough" else [n for n in RS.NESTED if n.endswith("_s_call") or n.endswith("_s_buf")])
